@@ -3,8 +3,8 @@
 package type3
 
 import (
-	hpke "github.com/cisco/go-hpke"
 	"crypto/elliptic"
+	hpke "github.com/cisco/go-hpke"
 
 	"github.com/cloudflare/pat-go/ecdsa"
 	. "github.com/cloudflare/pat-go/internal/vspec"
@@ -19,7 +19,7 @@ var _ = tokens.SpecTokenInput
 // specPadLen is the padded length of an origin name of k bytes: the next
 // multiple of 32, one block for the empty name.
 //
-//@ spec
+// @ spec
 func specPadLen(k int) int {
 	if k == 0 {
 		return 32
@@ -38,7 +38,7 @@ func specPadLen(k int) int {
 
 // SpecUnpad: the padded name without its trailing zero bytes.
 //
-//@ spec rec
+// @ spec rec
 func SpecUnpad(p string) string {
 	if len(p) == 0 {
 		return ""
@@ -66,7 +66,7 @@ func SpecUnpad(p string) string {
 
 // The issuer recovers exactly the name the client padded.
 //
-//@ lemma props C20
+// @ lemma props C20
 func lemmaUnpadPad(name string) {
 	Vassume(len(name) == 0 || name[len(name)-1] != 0)
 	Vassert(unpadOriginName(padOriginName(name)) == name)
@@ -74,7 +74,7 @@ func lemmaUnpadPad(name string) {
 
 // The padded length depends only on the number of 32-byte blocks.
 //
-//@ lemma props C20
+// @ lemma props C20
 func lemmaPadLenBuckets(a, b string) {
 	blocks := func(k int) int {
 		if k == 0 {
@@ -101,9 +101,10 @@ func lemmaPadLenBuckets(a, b string) {
 //@ end
 
 // struct { uint16 token_type = 0x0003; uint8 request_key[49]; uint8 name_key_id[32];
-//          opaque encrypted_token_request<1..2^16-1>; uint8 request_signature[96]; } TokenRequest
 //
-//@ spec
+//	opaque encrypted_token_request<1..2^16-1>; uint8 request_signature[96]; } TokenRequest
+//
+// @ spec
 func specEncT3Req(requestKey, nameKeyID, encrypted, signature string) string {
 	return U16(RateLimitedTokenType) + requestKey + nameKeyID + U16(uint16(len(encrypted))) + encrypted + signature
 }
@@ -129,7 +130,7 @@ func specEncT3Req(requestKey, nameKeyID, encrypted, signature string) string {
 //@ alloc len(data)
 //@ end
 
-//@ lemma props C04
+// @ lemma props C04
 func lemmaT3RequestRoundTrip(src, dst *RateLimitedTokenRequest) {
 	Vassume(src != nil && dst != nil && src != dst && src.raw == nil)
 	Vassume(len(src.RequestKey) == 49 && len(src.NameKeyID) == 32 && len(src.Signature) == 96)
@@ -141,7 +142,7 @@ func lemmaT3RequestRoundTrip(src, dst *RateLimitedTokenRequest) {
 	Vassert(string(dst.EncryptedTokenRequest) == string(src.EncryptedTokenRequest) && string(dst.Signature) == string(src.Signature))
 }
 
-//@ lemma props C04
+// @ lemma props C04
 func lemmaT3RequestReencode(r *RateLimitedTokenRequest, b []byte) {
 	Vassume(r != nil)
 	in := string(b)
@@ -151,7 +152,7 @@ func lemmaT3RequestReencode(r *RateLimitedTokenRequest, b []byte) {
 	Vassert(string(enc) == in)
 }
 
-//@ lemma props C04
+// @ lemma props C04
 func lemmaT3RejectsOtherTypes(r *RateLimitedTokenRequest, b []byte) {
 	Vassume(r != nil && len(b) >= 2 && (b[0] != 0 || b[1] != 3))
 	Vassert(!r.Unmarshal(b))
@@ -159,7 +160,7 @@ func lemmaT3RejectsOtherTypes(r *RateLimitedTokenRequest, b []byte) {
 
 // struct { uint8 token_key_id; uint8 blinded_msg[256]; opaque padded_origin_name<0..2^16-1>; } InnerTokenRequest
 //
-//@ spec
+// @ spec
 func specEncInner(keyID uint8, blinded, padded string) string {
 	return B1(keyID) + blinded + U16(uint16(len(padded))) + padded
 }
@@ -185,7 +186,7 @@ func specEncInner(keyID uint8, blinded, padded string) string {
 //@ alloc len(data)
 //@ end
 
-//@ lemma props C04
+// @ lemma props C04
 func lemmaInnerRoundTrip(src, dst *InnerTokenRequest) {
 	Vassume(src != nil && dst != nil && src != dst && src.raw == nil)
 	Vassume(len(src.blindedMsg) == 256 && len(src.paddedOrigin) <= 65535)
@@ -195,7 +196,7 @@ func lemmaInnerRoundTrip(src, dst *InnerTokenRequest) {
 	Vassert(dst.tokenKeyId == src.tokenKeyId && string(dst.blindedMsg) == string(src.blindedMsg) && string(dst.paddedOrigin) == string(src.paddedOrigin))
 }
 
-//@ lemma props C04
+// @ lemma props C04
 func lemmaInnerReencode(r *InnerTokenRequest, b []byte) {
 	Vassume(r != nil)
 	in := string(b)
@@ -211,7 +212,7 @@ func lemmaInnerReencode(r *InnerTokenRequest, b []byte) {
 // specReqMsg: the signed contents of a rate-limited request:
 // token_type || request_key || name_key_id || encrypted_token_request (16-bit length prefixed).
 //
-//@ spec rec
+// @ spec rec
 func specReqMsg(requestKey, nameKeyID, encrypted string) string {
 	return U16(RateLimitedTokenType) + requestKey + nameKeyID + U16(uint16(len(encrypted))) + encrypted
 }
@@ -219,7 +220,7 @@ func specReqMsg(requestKey, nameKeyID, encrypted string) string {
 // specSigOK: the request signature (r || s, 48 bytes each) verifies under the request key over the
 // SHA-384 digest of the request contents.
 //
-//@ spec
+// @ spec
 func specSigOK(requestKey, nameKeyID, encrypted string, signature []byte) bool {
 	c := CurveP384()
 	return ECDecOK(c, requestKey) && len(signature) >= 48 &&
@@ -252,7 +253,7 @@ func specSigOK(requestKey, nameKeyID, encrypted string, signature []byte) bool {
 
 // The cache is the user's: its contract is an abstract map from client id to state.
 //
-//@ spec ghost
+// @ spec ghost
 func CacheHas(c ClientStateCache, id string) bool { return false }
 
 //@ iface ($PKG.ClientStateCache).Get func(c ClientStateCache, clientID string) (st *ClientState, ok bool)
@@ -265,19 +266,19 @@ func CacheHas(c ClientStateCache, id string) bool { return false }
 
 // CacheKnown / CacheState: the abstract content of the cache (ghost state of the cache object, keyed by client id).
 //
-//@ spec opaque
+// @ spec opaque
 func cacheKey(c ClientStateCache, id string) int { return 0 }
 
-//@ spec ghost
+// @ spec ghost
 func cacheKnownAt(k int) bool { return false }
 
-//@ spec ghost
+// @ spec ghost
 func cacheStateAt(k int) *ClientState { return nil }
 
-//@ spec
+// @ spec
 func CacheKnown(c ClientStateCache, id string) bool { return cacheKnownAt(cacheKey(c, id)) }
 
-//@ spec
+// @ spec
 func CacheState(c ClientStateCache, id string) *ClientState { return cacheStateAt(cacheKey(c, id)) }
 
 //@ iface ($PKG.ClientStateCache).Put func(c ClientStateCache, clientID string, state *ClientState)
@@ -287,12 +288,12 @@ func CacheState(c ClientStateCache, id string) *ClientState { return cacheStateA
 
 // specClientCtx: 0x0003 || "ClientBlind".
 //
-//@ spec
+// @ spec
 func specClientCtx() string { return U16(RateLimitedTokenType) + "ClientBlind" }
 
 // specRequestKeyOK: the request key is the client key blinded with the blind key (C06, C08).
 //
-//@ spec
+// @ spec
 func specRequestKeyOK(requestKey, blindKeyEnc, clientKeyEnc string) bool {
 	c := CurveP384()
 	k := ecdsa.SpecBlindScalar(c, BE(blindKeyEnc), specClientCtx())
@@ -330,7 +331,7 @@ func specRequestKeyOK(requestKey, blindKeyEnc, clientKeyEnc string) bool {
 
 // specIndexKey: the issuer-blinded request key with the client's blind removed.
 //
-//@ spec
+// @ spec
 func specIndexKey(blindEnc, blindedRequestKeyEnc string) string {
 	c := CurveP384()
 	kInv := ModInv(ecdsa.SpecBlindScalar(c, BE(blindEnc), specClientCtx()), ECOrder(c))
@@ -338,7 +339,7 @@ func specIndexKey(blindEnc, blindedRequestKeyEnc string) string {
 	return ECEnc(c, ECMulX(c, kInv, x, y), ECMulY(c, kInv, x, y))
 }
 
-//@ spec
+// @ spec
 func specIndex(clientKey, blindEnc, blindedRequestKeyEnc string) string {
 	return HKDFSHA384(specIndexKey(blindEnc, blindedRequestKeyEnc), clientKey, "IssuerOriginAlias", 48)
 }
@@ -346,14 +347,14 @@ func specIndex(clientKey, blindEnc, blindedRequestKeyEnc string) string {
 // specClientStateOK: the representation invariant of a client state (as created by VerifyRequest): two
 // distinct, allocated maps.
 //
-//@ spec
+// @ spec
 func specClientStateOK(st *ClientState) bool {
 	return st != nil && st.clientIndices != nil && st.originIndices != nil && !SameMap(st.clientIndices, st.originIndices)
 }
 
 // specBlindOK: the blinding factor derived from the blind is invertible (it is zero with probability 2^-384).
 //
-//@ spec
+// @ spec
 func specBlindOK(blindEnc string) bool {
 	c := CurveP384()
 	return Invertible(ecdsa.SpecBlindScalar(c, BE(blindEnc), specClientCtx()), ECOrder(c))
@@ -385,7 +386,7 @@ func specBlindOK(blindEnc string) bool {
 // origin ID is refused, a repeat of an accepted pair and a pair with an unbound issuer origin ID are accepted,
 // and a client that was never verified is refused.
 //
-//@ lemma props C09
+// @ lemma props C09
 func lemmaAttesterStep(a *RateLimitedAttester, ck, blind, brk, anon []byte, i0, a0 string) {
 	Vassume(a != nil && a.cache != nil && specBlindOK(string(blind)))
 	cid := HexEnc(string(ck))
@@ -420,7 +421,7 @@ func lemmaAttesterStep(a *RateLimitedAttester, ck, blind, brk, anon []byte, i0, 
 // request blind cancels. clientKey = sk*G is the client's public key, hi the issuer's blinding factor for
 // the origin, k the per-request client blind factor (non-zero mod N).
 //
-//@ lemma props C08
+// @ lemma props C08
 func lemmaIndexStable(x, y, hi, k1, k2 Mathint) {
 	c := CurveP384()
 	n := ECOrder(c)
@@ -432,7 +433,7 @@ func lemmaIndexStable(x, y, hi, k1, k2 Mathint) {
 	Vassert(u1x == u2x && u1y == u2y)
 }
 
-//@ spec
+// @ spec
 func specUnblinded(c elliptic.Curve, x, y, hi, k Mathint) (Mathint, Mathint) {
 	n := ECOrder(c)
 	rx, ry := ECMulX(c, k, x, y), ECMulY(c, k, x, y)
@@ -446,14 +447,14 @@ func specUnblinded(c elliptic.Curve, x, y, hi, k Mathint) (Mathint, Mathint) {
 
 // specSuiteOK: a cipher suite assembled from known code points.
 //
-//@ spec
+// @ spec
 func specSuiteOK(s hpke.CipherSuite) bool {
 	return s.KEM != nil && s.KDF != nil && s.AEAD != nil
 }
 
 // struct { uint8 key_id; HpkeKemId kem_id; HpkePublicKey public_key; HpkeKdfId kdf_id; HpkeAeadId aead_id; } EncapKey
 //
-//@ spec
+// @ spec
 func specEncapKeyEnc(id uint8, s hpke.CipherSuite, pk hpke.KEMPublicKey) string {
 	return B1(id) + U16(uint16(KEMIdOf(s.KEM))) + KEMPubEnc(pk) + U16(uint16(KDFIdOf(s.KDF))) + U16(uint16(AEADIdOf(s.AEAD)))
 }
@@ -469,33 +470,33 @@ func specEncapKeyEnc(id uint8, s hpke.CipherSuite, pk hpke.KEMPublicKey) string 
 // specAAD: the associated data that binds an encrypted origin token request to the issuer configuration
 // and to the request key: key_id || kem_id || kdf_id || aead_id || token_type || request_key || SHA-256(EncapKey).
 //
-//@ spec
+// @ spec
 func specAAD(id uint8, s hpke.CipherSuite, pk hpke.KEMPublicKey, requestKey string) string {
 	return B1(id) + U16(uint16(KEMIdOf(s.KEM))) + U16(uint16(KDFIdOf(s.KDF))) + U16(uint16(AEADIdOf(s.AEAD))) + U16(RateLimitedTokenType) + requestKey + SHA256(specEncapKeyEnc(id, s, pk))
 }
 
 // specNameKeyOK: an issuer name key as the constructors build it.
 //
-//@ spec
+// @ spec
 func specNameKeyOK(k PrivateEncapKey) bool {
 	return specSuiteOK(k.suite) && k.publicKey != nil && k.privateKey != nil && KEMPubEnc(k.publicKey) == KEMPubOfPriv(k.privateKey)
 }
 
 // specNameCtx: the HPKE context of a request under the issuer's name key (info "TokenRequest").
 //
-//@ spec
+// @ spec
 func specNameCtx(k PrivateEncapKey, enc string) Mathint {
 	return HPKECtx(KEMPubOfPriv(k.privateKey), enc, "TokenRequest", KEMIdOf(k.suite.KEM), KDFIdOf(k.suite.KDF), AEADIdOf(k.suite.AEAD))
 }
 
 // specInnerOK: a complete inner token request (token_key_id, blinded_msg[256], padded_origin<0..2^16-1>).
 //
-//@ spec
+// @ spec
 func specInnerOK(pt string) bool {
 	return len(pt) >= 259 && len(pt)-259 >= int(pt[257])*256+int(pt[258])
 }
 
-//@ spec
+// @ spec
 func specInnerOrigin(pt string) string {
 	return pt[259 : 259+int(pt[257])*256+int(pt[258])]
 }
@@ -521,7 +522,7 @@ func specInnerOrigin(pt string) string {
 // specRLIssuerOK: an issuer as NewRateLimitedIssuer / AddOrigin* build it: P-384, a consistent name key, a
 // token key, and usable origin index keys (every registered key has a non-negative scalar).
 //
-//@ spec
+// @ spec
 func specRLIssuerOK(i RateLimitedIssuer) bool {
 	return i.curve == CurveP384() && specNameKeyOK(i.nameKey) && i.tokenKey != nil &&
 		ForallStr(func(o string) bool {
@@ -557,4 +558,46 @@ func specRLIssuerOK(i RateLimitedIssuer) bool {
 //@ ensures err == nil ==> fresh(resp) && fresh(blindedKey)
 //@ assigns none
 //@ alloc 64*len(encodedRequest) + 8192
+//@ end
+
+// ---------------------------------------------------------------------------
+// Client (C02, C03, C16)
+
+// @ spec
+func specMaxInt(a, b int) int {
+	if a > b {
+		return a
+	}
+	return b
+}
+
+// specRLStateOK: the request state a successful CreateTokenRequest returns.
+//
+// @ spec
+func specRLStateOK(s RateLimitedTokenRequestState) bool {
+	return specSuiteOK(s.nameKey.suite) && s.verificationKey != nil && VStKey(s.verifier) == s.verificationKey &&
+		VStMsg(s.verifier) == string(s.tokenInput) && len(s.tokenInput) == 98
+}
+
+// A finalization succeeds only if the response is long enough to hold the response nonce, opens under the
+// key and nonce derived from this request's encapsulated key and exported secret, and the unblinded
+// signature verifies (RSASSA-PSS, SHA-384) under the pinned key over this request's token input. Nothing of
+// the caller's (the response, the request) is written.
+//
+//@ func (s RateLimitedTokenRequestState) FinalizeToken(encryptedtokenResponse []byte) (token tokens.Token, err error)
+//@ props C02 C03 C16
+//@ requires specRLStateOK(s)
+//@ let in = string(s.tokenInput)
+//@ let resp = string(encryptedtokenResponse)
+//@ let nn = specMaxInt(AEADNk(AEADIdOf(s.nameKey.suite.AEAD)), AEADNn(AEADIdOf(s.nameKey.suite.AEAD)))
+//@ let prk = KDFExtract(KDFIdOf(s.nameKey.suite.KDF), string(s.encapEnc)+resp[:nn], string(s.encapSecret))
+//@ let key = KDFExpand(KDFIdOf(s.nameKey.suite.KDF), prk, "key", AEADNk(AEADIdOf(s.nameKey.suite.AEAD)))
+//@ let nonce = KDFExpand(KDFIdOf(s.nameKey.suite.KDF), prk, "nonce", AEADNn(AEADIdOf(s.nameKey.suite.AEAD)))
+//@ let bs = AEADOpenOf(AEADIdOf(s.nameKey.suite.AEAD), key, nonce, resp[nn:], "")
+//@ let sig = BRSAFinal(s.verificationKey, VStR(s.verifier), bs)
+//@ ensures[C02] err == nil ==> len(resp) >= nn && AEADOpenOK(AEADIdOf(s.nameKey.suite.AEAD), key, nonce, resp[nn:], "")
+//@ ensures[C02] err == nil ==> PSSVerify(s.verificationKey, SHA384(in), sig)
+//@ ensures[C02] err == nil ==> tokens.SpecTokenInput(token.TokenType, string(token.Nonce), string(token.Context), string(token.KeyID)) == in && string(token.Authenticator) == sig
+//@ assigns spare(s.tokenInput)
+//@ alloc 16*len(encryptedtokenResponse) + 16*len(s.encapEnc) + 8192
 //@ end
